@@ -93,4 +93,121 @@ theorem lookupVar_append_same (vars : List (String × Val)) (x : String) (v : Va
     lookupVar (vars ++ [(x, v)]) x = v := by
   simp [lookupVar, List.reverse_append, List.find?]
 
+/-! ## conditionals: exactly the first branch whose test is truthy -/
+
+/-- **C02 (if / else).** One conditional renders its `then` body iff the test value is truthy, else its `else` body (which is
+empty when there is none) - for EVERY test expression and bodies. -/
+theorem C02_if_selects (fuel : Nat) (env : Env) (c : TExpr) (thn els : List TNode) (st st' : St) (v : Val)
+    (hc : evalExpr fuel c st = .ok (v, st')) :
+    walk (fuel + 1) env (.ite c thn els) st =
+      (if truth st'.heap v then walkList fuel env thn st' else walkList fuel env els st') := by
+  simp only [walk, bind, StateT.bind, hc, Except.bind, getHeap, get, getThe, MonadStateOf.get, StateT.get, pure, StateT.pure,
+    Except.pure]
+  split <;> rfl
+
+/-- an `if / else if / ... / else` chain as the template parser nests it -/
+def chain : List (TExpr × List TNode) → List TNode → List TNode
+  | [], els => els
+  | (c, thn) :: rest, els => [.ite c thn (chain rest els)]
+
+/-- the branch JavaScript / pug selects: the body of the first test whose value is truthy, else the `else` body -/
+def selected (h : Heap) : List (Val × List TNode) → List TNode → List TNode
+  | [], els => els
+  | (v, thn) :: rest, els => if truth h v then thn else selected h rest els
+
+/-- **C02 (else-if chains).** For EVERY chain length: if the tests evaluate (without changing the state, as expression tests do)
+to the values `vs`, the chain renders exactly the selected branch - the first truthy one, or the else body, or nothing. -/
+theorem C02_if_chain (env : Env) (st : St) (branches : List (TExpr × List TNode)) (vs : List Val) (els : List TNode)
+    (hlen : vs.length = branches.length) (fmin : Nat)
+    (htests : ∀ i (hi : i < branches.length), ∀ f, fmin ≤ f →
+      evalExpr f (branches[i].1) st = .ok (vs[i]'(by omega), st))
+    (fuel : Nat) (hf : fmin + 2 * branches.length < fuel) :
+    ∃ f', fmin ≤ f' ∧ f' ≤ fuel ∧
+      walkList fuel env (chain branches els) st =
+        walkList f' env (selected st.heap (vs.zip (branches.map (·.2))) els) st := by
+  induction branches generalizing vs fuel with
+  | nil =>
+    cases vs with
+    | nil => exact ⟨fuel, by omega, by simp, rfl⟩
+    | cons _ _ => simp at hlen
+  | cons b rest ih =>
+    obtain ⟨c, thn⟩ := b
+    cases vs with
+    | nil => simp at hlen
+    | cons v vs' =>
+      simp only [List.length_cons] at hlen hf
+      obtain ⟨f, rfl⟩ : ∃ f, fuel = f + 2 := ⟨fuel - 2, by omega⟩
+      have hc : evalExpr f c st = .ok (v, st) := by
+        have := htests 0 (by simp) f (by omega)
+        simpa using this
+      have hwalk : walkList (f + 2) env (chain ((c, thn) :: rest) els) st =
+          (if truth st.heap v then walkList f env thn st else walkList f env (chain rest els) st) := by
+        simp only [chain]
+        show walkList (f + 1 + 1) env [TNode.ite c thn (chain rest els)] st = _
+        rw [walkList]
+        simp only [bind, StateT.bind, C02_if_selects f env c thn (chain rest els) st st v hc]
+        split
+        · cases h : walkList f env thn st with
+          | error e => simp [Except.bind]
+          | ok r => simp [Except.bind, walkList, pure, StateT.pure, Except.pure]
+        · cases h : walkList f env (chain rest els) st with
+          | error e => simp [Except.bind]
+          | ok r => simp [Except.bind, walkList, pure, StateT.pure, Except.pure]
+      by_cases ht : truth st.heap v = true
+      · refine ⟨f, by omega, by omega, ?_⟩
+        rw [hwalk]
+        simp [selected, ht]
+      · have hrec := ih vs' (by omega) (fun i hi f0 h1 => by
+            have := htests (i + 1) (by simp; omega) f0 h1
+            simpa using this) f (by omega)
+        obtain ⟨f', h1, h2, h3⟩ := hrec
+        refine ⟨f', h1, by omega, ?_⟩
+        rw [hwalk]
+        simp [selected, ht, h3]
+
+/-! ## each: once per element, in order, index / key bound -/
+
+/-- **C02 (each over an array).** The iteration list of an array is its elements in order, paired with the indices 0, 1, 2, ... -/
+theorem C02_each_array_items (a : Nat) (st : St) :
+    rangeKind (.arr a) st =
+      .ok (.items ((st.heap.getArr a).zipIdx.map fun (x, i) => (Val.int i, x)), st) := by
+  simp [rangeKind, bind, StateT.bind, getHeap, get, getThe, MonadStateOf.get, StateT.get, pure, StateT.pure, Except.pure,
+    Except.bind]
+
+/-- **C02 (each over an object with insertion order).** The iteration visits the keys in insertion order (those still
+present), each bound to its member. -/
+theorem C02_each_object_items (a : Nat) (st : St) (ho : (st.heap.getMap a).order.length > 0) :
+    ∃ l, rangeKind (.map a) st = .ok (.items l, st) ∧
+      l = ((st.heap.getMap a).order.filter fun k => (assocGet (st.heap.getMap a).items k).isSome).map
+            fun k => (Val.str k, mapMember (st.heap.getMap a) k) := by
+  refine ⟨_, by simp [rangeKind, bind, StateT.bind, getHeap, get, getThe, MonadStateOf.get, StateT.get, pure, StateT.pure,
+    Except.pure, Except.bind, ho]; rfl, ?_⟩
+  generalize (st.heap.getMap a).order = ks
+  induction ks with
+  | nil => rfl
+  | cons k rest ih =>
+    simp only [List.filterMap_cons, List.filter_cons]
+    cases h : assocGet (st.heap.getMap a).items k with
+    | none => simp [ih]
+    | some w => simp [ih]
+
+/-- **C02 (each over a missing or null collection renders nothing).** -/
+theorem C02_each_missing (v : Val) (hv : v = .nil ∨ v = .invalid) (st : St) :
+    rangeKind v st = .ok (.nothing, st) := by
+  rcases hv with rfl | rfl <;>
+    simp [rangeKind, bind, StateT.bind, getHeap, get, getThe, MonadStateOf.get, StateT.get, pure, StateT.pure, Except.pure,
+      Except.bind]
+
+/-- **C02 (one iteration).** With index and element variables declared: bind the index / key, bind the element, render the body,
+go on with the remaining elements - for EVERY body and EVERY remaining list. -/
+theorem C02_each_step (fuel : Nat) (env : Env) (k v : String) (body : List TNode) (i x : Val) (rest : List (Val × Val)) :
+    walkItems (fuel + 1) env [k, v] body ((i, x) :: rest) =
+      (do setVar ("$" ++ k) i; setVar ("$" ++ v) x; walkList fuel env body; walkItems fuel env [k, v] body rest) := by
+  simp [walkItems, bind_assoc]
+
+/-- **C02 (an empty collection renders nothing and changes nothing).** -/
+theorem C02_each_empty (fuel : Nat) (env : Env) (decl : List String) (body : List TNode) (st : St) :
+    walkItems (fuel + 1) env decl body [] st = .ok ((), st) := by
+  simp [walkItems, pure, StateT.pure, Except.pure]
+
 end Pug.Props.C02
